@@ -217,6 +217,7 @@ def run(ctx):
     # mode and option (constant_values, stat_length, end_values, ...)
     from .. import padopt
     padopt.run_stage(ctx, df, "C08_PadLikeData")
+    core.df_stage(ctx, df)   # mixed histories (spec/DF.tla): the clauses that come from this property's text
     return core.finish(ctx, rule=RULE, extra={"embeddings": [e.name for e in embs]})
 
 
